@@ -7,6 +7,8 @@ import UVerif.Model.PositConv
 import UVerif.Spec.Ieee
 import UVerifProofs.Lemmas.Pow2
 import UVerifProofs.Lemmas.Ieee
+import UVerifProofs.Lemmas.PositArith
+import UVerifProofs.Props.C01
 
 open UVerif UVerif.Posit
 
@@ -96,3 +98,91 @@ theorem C03_classifyIeee_exact (eb mb bits : Nat) (s : Bool) (sc : Int) (fr : Na
     classified as finite sources -/
 example : classifyIeee 11 52 0x3 = .fin false (-1073) (2 ^ 51) ∧
           classifyIeee 11 52 0x4009000000000000 = .fin false 1 0x9000000000000 := by decide
+
+/-! ### the complete conversion: exact field extraction followed by one correct rounding (uses C01 `convert_correct`) -/
+
+section
+open UVerif.Posit
+
+/-- **float / double / any IEEE binary source → posit is correctly rounded.** For every posit configuration and every
+    finite non-zero source pattern (normal or subnormal, any exponent/mantissa width — binary32 and binary64 are the
+    instances the library uses), `convert_ieee754` returns the posit the Standard selects for the source's exact value. -/
+theorem C03_posit_from_ieee (n es eb mb bits : Nat) (hn : 2 ≤ n) (s : Bool) (sc : Int) (fr : Nat)
+    (h : classifyIeee eb mb bits = .fin s sc fr) (x : ℚ) (hx : ieeeVal eb mb bits = some x) :
+    PositNearest n es x (fromSrc n es mb (classifyIeee eb mb bits)) := by
+  have hex := C03_classifyIeee_exact' eb mb bits s sc fr h
+  rw [hx] at hex
+  injection hex with hex
+  -- the extracted fraction fits in mb bits
+  have hfr : fr < 2 ^ mb := by
+    unfold classifyIeee at h
+    simp only at h
+    split at h
+    · split at h <;> cases h
+    · split at h
+      · split at h
+        · cases h
+        · rename_i hM0
+          injection h with _ _ hfr
+          subst hfr
+          set M := bits % 2 ^ mb with hM
+          have hMlt : M < 2 ^ mb := Nat.mod_lt _ (Nat.two_pow_pos _)
+          have hlo : 2 ^ M.log2 ≤ M := Nat.log2_self_le hM0
+          have hhi : M < 2 ^ (M.log2 + 1) := Nat.lt_log2_self
+          have hmsb : M.log2 < mb := by
+            by_contra hc
+            have := Nat.pow_le_pow_right (show 0 < 2 by decide) (show mb ≤ M.log2 by omega)
+            omega
+          rw [Nat.shiftLeft_eq]
+          have e : 2 ^ mb = 2 ^ M.log2 * 2 ^ (mb - M.log2) := by rw [← Nat.pow_add]; congr 1; omega
+          rw [e]
+          apply Nat.mul_lt_mul_of_pos_right _ (Nat.two_pow_pos _)
+          rw [Nat.pow_succ] at hhi; omega
+      · injection h with _ _ hfr
+        subst hfr
+        exact Nat.mod_lt _ (Nat.two_pow_pos _)
+  have hval : srcVal' mb s sc fr = (if s then -1 else 1) * ((2 : ℚ) ^ sc * (1 + (fr : ℚ) / 2 ^ mb)) := by
+    unfold srcVal'
+    simp only [UVerif.pow2_eq_zpow]
+    push_cast
+    cases s <;> simp <;> ring
+  rw [h, hex, hval]
+  unfold fromSrc
+  exact C01_convert_correct n es hn s sc mb fr hfr
+
+/-- **8…64-bit integer → posit is correctly rounded.** For every posit configuration, every fraction width the
+    constructors instantiate and every non-zero integer that fits it, the posit constructed from the integer is the
+    Standard's rounding of that integer. -/
+theorem C03_posit_from_int (n es fb : Nat) (x : Int) (hn : 2 ≤ n) (hx : x ≠ 0) (hfb : fb ≤ 64)
+    (hfit : x.natAbs.log2 ≤ fb) (h64 : x.natAbs < 2 ^ 64) :
+    PositNearest n es (x : ℚ) (Posit.convert n es (valueOfInt fb x)) := by
+  have hex := C03_valueOfInt_exact fb x hx hfb hfit h64
+  rw [← hex]
+  apply convert_val_correct n es hn
+  -- the triple is finite, non-zero and its fraction fits
+  unfold valueOfInt
+  simp only [hx, if_false]
+  refine ⟨rfl, rfl, ?_⟩
+  simp only [hfb, if_true]
+  have hm0 : x.natAbs ≠ 0 := by omega
+  set mag := x.natAbs
+  have hlo : 2 ^ mag.log2 ≤ mag := Nat.log2_self_le hm0
+  have hhi : mag < 2 ^ (mag.log2 + 1) := Nat.lt_log2_self
+  have hsc : mag.log2 ≤ 63 := by
+    by_contra hc
+    have := Nat.pow_le_pow_right (show 0 < 2 by decide) (show 64 ≤ mag.log2 by omega)
+    omega
+  rw [Nat.shiftRight_eq_div_pow]
+  apply (Nat.div_lt_iff_lt_mul (Nat.two_pow_pos _)).2
+  have e : 2 ^ fb * 2 ^ (64 - fb) = 2 ^ 64 := by rw [← Nat.pow_add]; congr 1; omega
+  rw [e]
+  split
+  · exact Nat.two_pow_pos _
+  · exact Nat.mod_lt _ (Nat.two_pow_pos _)
+
+/-- non-vacuity: posit<16,1> from the int 1000003 (value<31>) -/
+example : PositNearest 16 1 (1000003 : ℚ) (Posit.convert 16 1 (valueOfInt 31 1000003)) := by
+  have := C03_posit_from_int 16 1 31 1000003 (by decide) (by decide) (by decide) (by decide) (by decide)
+  simpa using this
+
+end
